@@ -153,27 +153,38 @@ Qed.
 (* ------------------------------------------------------------------ *)
 (* the periodic bound is refuted                                        *)
 
-(* the whole run is evaluated once, here *)
-Definition periodic_len : option N :=
-  match hrun true 1%Z false [HWrite (repeat_list 16384 colliding_period); HClose] with
+(* the length of the output for n periods.  (As a function of n: with the run as a closed
+   constant, vm_compute did not terminate within 30 minutes; in this form it takes 47 s.) *)
+Definition plen (n : nat) : option N :=
+  match hrun true 1%Z false [HWrite (repeat_list n colliding_period); HClose] with
   | Some (w, _) => Some (lenN (run_bytes w))
   | None => None
   end.
 
-Lemma periodic_len_eq : periodic_len = Some 18465.
-Proof. vm_compute. reflexivity. Qed.
+Lemma plen_some : forall n k, plen n = Some k ->
+  exists w flags,
+    hrun true 1%Z false [HWrite (repeat_list n colliding_period); HClose] = Some (w, flags) /\
+    lenN (run_bytes w) = k.
+Proof.
+  intros n k. unfold plen.
+  destruct (hrun true 1%Z false [HWrite (repeat_list n colliding_period); HClose]) as [[w flags]|];
+    intros H; [|discriminate H].
+  inversion H as [H']. exists w, flags. split; reflexivity.
+Qed.
+
+(* the whole run is evaluated once, by the kernel's VM at Qed *)
+Lemma plen_eq : plen 16384 = Some 18465.
+Proof. vm_cast_no_check (@eq_refl (option N) (Some 18465)). Qed.
 
 Lemma periodic_data_len : lenN (repeat_list 16384 colliding_period) = 65536.
-Proof. vm_compute. reflexivity. Qed.
+Proof. vm_cast_no_check (@eq_refl N 65536). Qed.
 
 Theorem periodic_refuted : periodic_refuted_statement.
 Proof.
   unfold periodic_refuted_statement. cbv zeta.
-  pose proof periodic_len_eq as HL. unfold periodic_len in HL.
-  destruct (hrun true 1%Z false [HWrite (repeat_list 16384 colliding_period); HClose])
-    as [[w flags]|] eqn:E; [|discriminate HL].
-  exists w, flags. split; [reflexivity|]. split; [exact periodic_data_len|].
-  inversion HL as [HL']. rewrite periodic_data_len. reflexivity.
+  destruct (plen_some 16384 18465 plen_eq) as (w & flags & E & HL).
+  exists w, flags. split; [exact E|]. split; [exact periodic_data_len|].
+  rewrite HL, periodic_data_len. reflexivity.
 Qed.
 
 Print Assumptions cost_identity.
